@@ -577,7 +577,18 @@ func c19RandCfg(rng *rec.Rng) c19Cfg {
 
 func c19(out *rec.Out, rng *rec.Rng, tier string, stats map[string]int) {
 	presetN := 0
-	preset := func() string { presetN++; return fmt.Sprintf("P%d", presetN) }
+	// preset ids are the caller's: every second one is the one before it with a suffix a modeler (or a builder) would
+	// derive for something else — `X_di` (the bpmn.io name of X's shape), `X_1` — they are still different ids
+	preset := func() string {
+		presetN++
+		switch {
+		case presetN%4 == 2:
+			return fmt.Sprintf("P%d_di", presetN-1)
+		case presetN%4 == 0:
+			return fmt.Sprintf("P%d_1", presetN-1)
+		}
+		return fmt.Sprintf("P%d", presetN)
+	}
 	runMode := func(i int) string {
 		if i%2 == 0 {
 			return "built"
